@@ -47,7 +47,7 @@ class Gen:
             self._declare("p%d" % i, (), BOOL); self.bools.append(self.tb.var("p%d" % i, BOOL))
         if self.num:
             for i in range(nnum):
-                nm = "xyzw"[i]
+                nm = "xyzwvrstabcd"[i]
                 self._declare(nm, (), self.num); self.nums.append(self.tb.var(nm, self.num))
         if self.uf:
             self.decls.append({"c": "declare-sort", "nm": "U"}); self.sig.sorts.add("U")
@@ -316,6 +316,82 @@ def preamble(g, options=()):
     cmds = [{"c": "set-option", "k": k, "v": v} for k, v in options]
     cmds.append({"c": "set-logic", "logic": logic_name(g.logic)})
     cmds += [dict(d) for d in g.decls]
+    return cmds
+
+def interface_history(g, rng, queries=()):
+    """theory-combination corner: numeric variables pinned or bounded (strictly, non-strictly, through sums) next to
+    numerals, and both used as arguments of uninterpreted functions / array indices whose values are related.
+    Whether the script is satisfiable hinges on interface equalities between variables and numerals."""
+    tb, S = g.tb, g.num
+    x, y = rng.sample(g.nums, 2)
+    def num(c): return tb.num(c, S)
+    c = rng.randint(-2, 3)
+    d = rng.choice([c, c + 1, c - 1, c + 1])
+    targets = [(x, c), (tb.app("+", [x, y]), c + d), (x, c)]
+    t, tc = rng.choice(targets)
+    facts = []
+    kind = rng.choice(["eq", "strictpin", "strictlow", "strictup", "low", "strictlow", "strictpin"])
+    if kind == "eq":
+        facts += [tb.app("<=", [t, num(tc)]), tb.app(">=", [t, num(tc)])]
+    elif kind == "strictpin":
+        w = 1 if S == INT else rng.choice([1, 1, 2])
+        facts += [tb.app("<", [t, num(tc + w)]), tb.app(">", [t, num(tc - 1)])]
+    elif kind == "strictlow":
+        facts += [tb.app(">", [t, num(tc)])]
+    elif kind == "strictup":
+        facts += [tb.app("<", [t, num(tc)])]
+    else:
+        facts += [tb.app(">=", [t, num(tc)])]
+    if t != x or rng.random() < 0.5:
+        k2 = rng.choice(["eq", "strictpin", "low", "strictlow"])
+        if k2 == "eq":
+            facts += [tb.app("=", [y, num(d)])]
+        elif k2 == "strictpin":
+            facts += [tb.app("<", [y, num(d + 1)]), tb.app(">", [y, num(d - 1)])]
+        elif k2 == "low":
+            facts += [tb.app(">=", [y, num(d)])]
+        else:
+            facts += [tb.app(">", [y, num(d)])]
+    # applications over a variable and over a numeral (or the other variable)
+    def wrap(a):
+        opts = []
+        if "h" in g.funs: opts.append(lambda a: tb.uf("h", [a], S))
+        if "k" in g.funs: opts.append(lambda a: tb.uf("k", [a], "U"))
+        if "k" in g.funs: opts.append(lambda a: tb.uf("P", [tb.uf("k", [a], "U")], BOOL))
+        if g.arr and g.isort == S: opts.append(lambda a: tb.app("select", [g.arrs[0], a]))
+        return rng.choice(opts) if opts else None
+    rel = []
+    for _ in range(rng.choice([1, 1, 2])):
+        w = wrap(None)
+        if w is None:
+            break
+        a1 = rng.choice([x, x, y])
+        a2 = rng.choice([num(c), num(c), num(d), num(c + 1), y if a1 != y else x])
+        l, r = w(a1), w(a2)
+        if tb.sort(l) == BOOL:
+            rel += [l, tb.app("not", [r])] if rng.random() < 0.5 else [tb.app("not", [l]), r]
+        elif tb.sort(l) == S and rng.random() < 0.4:
+            rel += [tb.app(rng.choice(["<", ">"]), [l, r])]
+        else:
+            rel += [tb.app("not", [tb.app("=", [l, r])])]
+    cmds = []
+    items = facts + rel
+    rng.shuffle(items)
+    depth = 0
+    for i, f in enumerate(items):
+        if rng.random() < 0.25:
+            cmds.append({"c": "push", "n": 1}); depth += 1
+        if rng.random() < 0.2 and len(items) > 2:
+            g2 = rng.choice(g.bools)
+            f = tb.app("or", [f, tb.app("and", [g2, tb.app("not", [g2])])]) if rng.random() < 0.5 else tb.app("or", [f, f])
+        cmds.append({"c": "assert", "t": f, "nm": "", "inner": []})
+        if rng.random() < 0.3 or i == len(items) - 1:
+            cmds.append({"c": "check-sat"})
+            cmds += [dict(q) for q in queries]
+    if depth and rng.random() < 0.5:
+        cmds.append({"c": "pop", "n": 1})
+        cmds.append({"c": "check-sat"})
+        cmds += [dict(q) for q in queries]
     return cmds
 
 def random_history(g, rng, n_assert=5, p_named=0.0, queries=(), max_depth=3, define_funs=True,
